@@ -450,8 +450,66 @@ static void sLog(Sink &sink, const Args &a, long c, Rng &rng)
     sink.sample(J().str("kind", "C19 surface: concurrent logging").i("threads", T));
 }
 
+// terminate() from another thread while the polling thread of a periodic condition is inside the predicate (forced)
+static void sTerminateInsidePredicate(Sink &sink, const Args &a, long c, Rng &rng)
+{
+    std::atomic<int> phase{0};
+    std::atomic<bool> armed{false};
+    auto pred = [&]() -> bool {
+        if (armed.load(std::memory_order_acquire) && phase.load(std::memory_order_acquire) == 0)
+        {
+            phase.store(1, std::memory_order_release);
+            for (int i = 0; i < 2000000 && phase.load(std::memory_order_acquire) != 2; ++i) sched_yield();
+        }
+        return false;
+    };
+    const double period = rng.logUni(2e-4, 5e-3);
+    long falseAfter = 0, evals = 0;
+    bool entered = false;
+    {
+        ob::PlannerTerminationCondition ptc(pred, period);
+        armed.store(true, std::memory_order_release);
+        for (int i = 0; i < 2000000 && phase.load(std::memory_order_acquire) != 1; ++i) sched_yield();
+        entered = phase.load(std::memory_order_acquire) == 1;
+        if (entered)
+        {
+            std::thread t([&] {
+                ptc.terminate();
+                phase.store(2, std::memory_order_release);
+            });
+            t.join();
+            int E = 1 + rng.ui(4);
+            std::vector<std::thread> th;
+            std::atomic<long> fa{0}, ev{0};
+            for (int k = 0; k < E; ++k)
+                th.emplace_back([&] {
+                    for (int i = 0; i < 3000; ++i)
+                    {
+                        ++ev;
+                        if (!ptc.eval()) ++fa;
+                        if (i % 64 == 0) usleep(50);
+                    }
+                });
+            for (auto &x : th) x.join();
+            falseAfter = fa;
+            evals = ev;
+        }
+    }
+    sink.count("c19_ptc_evaluations", evals);
+    sink.count("c19_terminate_inside_predicate_cases");
+    if (!entered) sink.inconclusive("poller-never-entered-predicate");
+    else if (falseAfter)
+        sink.viol("C19:terminate-not-visible:PlannerTerminationCondition", J().str("what", "evaluation false after terminate() from another thread had returned (it arrived while the polling thread was inside the predicate)").i("n", falseAfter).num("period", period));
+    sink.noteCase(hmix(caseSeed(a, c), 77), entered);
+}
+
 static void sTerminate(Sink &sink, const Args &a, long c, Rng &rng)
 {
+    if (rng.ui(4) == 0)
+    {
+        sTerminateInsidePredicate(sink, a, c, rng);
+        return;
+    }
     int mode = rng.ui(3);  // 0 predicate form, 1 periodic form, 2 or-combination
     std::atomic<bool> pred{false};
     ob::PlannerTerminationCondition base = mode == 1 ? ob::PlannerTerminationCondition([&] { return pred.load(); }, 0.002) : ob::PlannerTerminationCondition([&] { return pred.load(); });
